@@ -78,7 +78,10 @@ def base_formulas(tier):
                ('until', iv, px, py), ('unless', iv, px, py)]
     fs += [('once', (1, 2), ('historically', (0, 1), F.X)), ('eventually', (0, 1), ('historically', (1, 2), px)),
            ('and', ('eventually', (1, 1), px), ('once', (0, 2), py)), ('always', (0, 2), ('eventually', (1, 2), F.X)),
-           ('and', ('next', px), py), ('or', ('next', ('eventually', (0, 1), px)), ('once', (0, 1), py))]
+           ('and', ('next', px), py), ('or', ('next', ('eventually', (0, 1), px)), ('once', (0, 1), py)),
+           # a past operand that pastify() has to delay because its sibling looks into the future
+           ('or', ('historically', (1, 2), px), ('always', (0, 2), py)), ('implies', ('eventually', (0, 2), px), ('since', (0, 1), px, py)),
+           ('and', ('once', (1, 2), px), ('next', py))]
     return fs
 
 
